@@ -343,7 +343,7 @@ impl BinarySerializer for Bytes {
         &self,
         context: &mut SerializationContext<Output>,
     ) -> Result<()> {
-        context.write_var_u32(self.len().try_into()?); // NOTE: this is inconsistent with the generic case, but this way it is compatible with the Scala version's Chunk serializer
+        context.write_var_u32(i32::try_from(self.len())? as u32); // NOTE: this is inconsistent with the generic case, but this way it is compatible with the Scala version's Chunk serializer
         context.write_bytes(self);
         Ok(())
     }
@@ -355,7 +355,7 @@ impl<T: BinarySerializer + 'static> BinarySerializer for [T] {
         context: &mut SerializationContext<Output>,
     ) -> Result<()> {
         if let Ok(byte_slice) = cast!(self, &[u8]) {
-            context.write_var_u32(self.len().try_into()?); // NOTE: this is inconsistent with the generic case, but this way it is compatible with the Scala version's Chunk serializer
+            context.write_var_u32(i32::try_from(self.len())? as u32); // NOTE: this is inconsistent with the generic case, but this way it is compatible with the Scala version's Chunk serializer
             context.write_bytes(byte_slice);
         } else {
             context.write_var_i32(self.len().try_into()?);
@@ -373,7 +373,7 @@ impl<T: BinarySerializer, const L: usize> BinarySerializer for [T; L] {
         context: &mut SerializationContext<Output>,
     ) -> Result<()> {
         if let Ok(byte_slice) = cast!(self, &[u8; L]) {
-            context.write_var_u32(self.len().try_into()?); // NOTE: this is inconsistent with the generic case, but this way it is compatible with the Scala version's Chunk serializer
+            context.write_var_u32(i32::try_from(self.len())? as u32); // NOTE: this is inconsistent with the generic case, but this way it is compatible with the Scala version's Chunk serializer
             context.write_bytes(byte_slice);
         } else {
             context.write_var_i32(self.len().try_into()?);
@@ -391,7 +391,7 @@ impl<T: BinarySerializer> BinarySerializer for Vec<T> {
         context: &mut SerializationContext<Output>,
     ) -> Result<()> {
         if let Ok(byte_vec) = cast!(self, &Vec<u8>) {
-            context.write_var_u32(byte_vec.len().try_into()?); // NOTE: this is inconsistent with the generic case, but this way it is compatible with the Scala version's Chunk serializer
+            context.write_var_u32(i32::try_from(byte_vec.len())? as u32); // NOTE: this is inconsistent with the generic case, but this way it is compatible with the Scala version's Chunk serializer
             context.write_bytes(byte_vec);
             Ok(())
         } else {
